@@ -20,6 +20,9 @@
                          z / f = before every call the stack below the caller is filled with 0x00 / 0xff, so that a
                              local the library forgot to initialise has that value (heap: ASan malloc_fill_byte 0xbe)
                          s = append " sni=<hex of ssl->expectedName>" to the result
+                         r = afterwards the application connects again on the same client session id object / server keys
+                             (what the peer made the client store is encoded into the next ClientHello and used):
+                             " re=<rc>:<client hsState>/<server hsState>"
          -> "ok rc=<rc,rc,..> hs=<hsState> fl=<E|C|-> in=<inlen>/<insize>"     no finding
             "FAULT <asan|ubsan>:<function>:<kind>"      sanitizer report (child died)
             "HANG"                                      watchdog alarm (5 s)
@@ -51,7 +54,15 @@ const char *__ubsan_default_options(void) { return "print_stacktrace=1"; }
 const char *__lsan_default_options(void) { return "print_suppressions=0"; }
 
 /* ------------------------------------------------------------------ configurations */
-typedef struct { const char *name; int dtls, cmin, smin, suite, cauth, key, pmtu; } wcfg_t;
+/* ticket: the server holds session-ticket keys and the client asks for tickets.
+   conn: the transcript is that of a LATER connection; the earlier ones run to completion first (handshake + one
+   application record each way), the application-owned state (client sslSessionId_t, server keys / session cache) is
+   carried over:   0 single connection
+                   1 connection 2 offers what connection 1 left in the session id (ticket / TLS 1.3 PSK, else session id)
+                   2 as 1, but the server's ticket key was replaced in between: resumption declined, full handshake,
+                     NewSessionTicket for a session id that already holds a ticket
+                   3 connection 3: resumption with the renewed ticket of conn 2 */
+typedef struct { const char *name; int dtls, cmin, smin, suite, cauth, key, pmtu, ticket, conn; } wcfg_t;
 static const wcfg_t CFGS[] = {
     { "t11",    0, 2, 2, 0,      0, 0, 0 },
     { "t12",    0, 3, 3, 0,      0, 0, 0 },
@@ -67,30 +78,34 @@ static const wcfg_t CFGS[] = {
     { "d12cbc", 1, 3, 3, 0xc027, 0, 0, 0 },
     { "d12f",   1, 3, 3, 0xc02f, 0, 0, 400 },    /* small PMTU: real fragments in the legal transcript */
     { "d10",    1, 2, 2, 0xc013, 0, 0, 0 },
+    /* several connections on one sslSessionId_t / one set of server keys */
+    { "t12tk",    0, 3, 3, 0, 0, 0, 0, 1, 0 },   /* first NewSessionTicket */
+    { "t12tk2",   0, 3, 3, 0, 0, 0, 0, 1, 1 },   /* resumption by ticket */
+    { "t12tkrot", 0, 3, 3, 0, 0, 0, 0, 1, 2 },   /* ticket key rotated: full handshake + ticket renewal */
+    { "t12tk3",   0, 3, 3, 0, 0, 0, 0, 1, 3 },   /* resumption with the renewed ticket */
+    { "t12rid",   0, 3, 3, 0, 0, 0, 0, 0, 1 },   /* resumption by session id (server cache) */
+    { "t13tk",    0, 4, 4, 0, 0, 0, 0, 1, 0 },   /* TLS 1.3 NewSessionTicket */
+    { "t13tk2",   0, 4, 4, 0, 0, 0, 0, 1, 1 },   /* TLS 1.3 PSK resumption */
+    { "d12rid",   1, 3, 3, 0xc02f, 0, 0, 0, 0, 1 },  /* DTLS resumption by session id */
     { NULL }
 };
 static const wcfg_t *find_cfg(const char *n) { for (const wcfg_t *c = CFGS; c->name; c++) if (!strcmp(c->name, n)) return c; return NULL; }
 static const wcfg_t *g_cfg;
 static int g_default_pmtu;
+static int finish_conn(void);
 
-static int mk_pair(const wcfg_t *c)
+/* DTLS pair (own construction: the transcripts of the first rounds depend on its entropy schedule) */
+static int mk_dtls(const wcfg_t *c, int first)
 {
-    g_cfg = c;
-    ent_seed(99);       /* matrixSslOpen() below draws global secrets (DTLS cookie key ...): independent of what ran before */
-    if (!c->dtls) {
-        scfg_t s; memset(&s, 0, sizeof s); s.cca = 1; s.seed = 7;
-        s.ncver = 1; s.cver[0] = c->cmin; s.nsver = 1; s.sver[0] = c->smin;
-        if (c->suite) { s.nsuites = 1; s.suites[0] = (psCipher16_t) c->suite; }
-        s.cauth = c->cauth; s.scb = c->cauth ? 1 : 0; s.key = c->key;
-        return sess_new(&s);
-    }
-    /* DTLS pair (sess.h creates TLS sessions only) */
     peer_free(&g_c); peer_free(&g_s);
     memset(&g_c, 0, sizeof g_c); memset(&g_s, 0, sizeof g_s); g_s.is_server = 1;
-    if (g_skeys_persist) { matrixSslDeleteKeys(g_skeys_persist); g_skeys_persist = NULL; }
-    if (g_saved_sid) { matrixSslDeleteSessionId(g_saved_sid); g_saved_sid = NULL; }
-    matrixSslClose(); if (matrixSslOpen() < 0) return -9;
-    g_vtime = 1592222400; ent_seed(7); g_pin_year = 2020;
+    if (first) {
+        if (g_skeys_persist) { matrixSslDeleteKeys(g_skeys_persist); g_skeys_persist = NULL; }
+        if (g_saved_sid) { matrixSslDeleteSessionId(g_saved_sid); g_saved_sid = NULL; }
+        matrixSslClose(); if (matrixSslOpen() < 0) return -9;
+        g_vtime = 1592222400;
+    }
+    ent_seed(first ? 7 : 8); g_pin_year = 2020;
     matrixDtlsSetPmtu(c->pmtu > 0 ? c->pmtu : g_default_pmtu);
     if (matrixSslNewKeys(&g_s.keys, NULL) < 0) return -1;
     if (load_identity(g_s.keys, c->key, 1, c->cauth ? 1 : 0) < 0) return -2;
@@ -103,8 +118,41 @@ static int mk_pair(const wcfg_t *c)
     memset(&so, 0, sizeof so);
     so.versionFlag = SSL_FLAGS_DTLS | (c->cmin == 2 ? SSL_FLAGS_TLS_1_1 : SSL_FLAGS_TLS_1_2);
     psCipher16_t cs[1] = { (psCipher16_t) c->suite };
-    if (matrixSslNewClientSession(&g_c.ssl, g_c.keys, NULL, cs, 1, NULL, NULL, NULL, NULL, &so) != MATRIXSSL_REQUEST_SEND) return -6;
+    if (c->conn) {          /* the application keeps one session id object across its connections */
+        if (first || !g_saved_sid) { if (g_saved_sid) matrixSslDeleteSessionId(g_saved_sid); g_saved_sid = NULL; if (matrixSslNewSessionId(&g_saved_sid, NULL) < 0) return -7; }
+        g_c.sid = g_saved_sid;
+    }
+    if (matrixSslNewClientSession(&g_c.ssl, g_c.keys, c->conn ? g_saved_sid : NULL, cs, 1, NULL, NULL, NULL, NULL, &so) != MATRIXSSL_REQUEST_SEND) return -6;
     return 0;
+}
+
+static int mk_pair(const wcfg_t *c)
+{
+    int rc;
+    g_cfg = c;
+    ent_seed(99);       /* matrixSslOpen() below draws global secrets (DTLS cookie key ...): independent of what ran before */
+    if (c->dtls) {
+        if ((rc = mk_dtls(c, 1)) < 0 || !c->conn) return rc;
+        if ((rc = finish_conn()) < 0) return rc;
+        return mk_dtls(c, 0);
+    }
+    scfg_t s; memset(&s, 0, sizeof s); s.cca = 1; s.seed = 7;
+    s.ncver = 1; s.cver[0] = c->cmin; s.nsver = 1; s.sver[0] = c->smin;
+    if (c->suite) { s.nsuites = 1; s.suites[0] = (psCipher16_t) c->suite; }
+    s.cauth = c->cauth; s.scb = c->cauth ? 1 : 0; s.key = c->key; s.ticket = c->ticket;
+    if ((rc = sess_new(&s)) < 0 || !c->conn) return rc;
+    if ((rc = finish_conn()) < 0) return rc;
+    if (c->conn >= 2) {     /* the server rotates its ticket key: tickets sealed under the old one can no longer be opened */
+        static unsigned char tn[16] = "verif-ticketkey"; static const unsigned char tn2[16] = "verif-ticketke2"; unsigned char sk[32], hk[32];
+        memset(sk, 0x6b, 32); memset(hk, 0xb6, 32);
+        if (matrixSslDeleteSessionTicketKey(g_skeys_persist, tn) < 0) return -11;
+        if (matrixSslLoadSessionTicketKeys(g_skeys_persist, tn2, sk, 32, hk, 32) < 0) return -12;
+    }
+    s.keep_skeys = 1; s.resume = 1; s.seed = 8;
+    if ((rc = sess_new(&s)) < 0 || c->conn < 3) return rc;
+    if ((rc = finish_conn()) < 0) return rc;
+    s.seed = 9;
+    return sess_new(&s);
 }
 
 static void drop_pair(void)
@@ -317,6 +365,16 @@ static int run_prefix(int k, int cap)
     return delivered;
 }
 
+/* run the current connection to completion (an earlier connection of a multi-connection configuration) */
+static int finish_conn(void)
+{
+    units_free(); g_app_sent = 0;
+    int rc = run_prefix(-1, 0);
+    int ok = rc >= 0 && g_c.ssl->hsState == SSL_HS_DONE && g_s.ssl->hsState == SSL_HS_DONE;
+    units_free(); g_app_sent = 0;
+    return ok ? 0 : -20;
+}
+
 /* ------------------------------------------------------------------ child verdicts */
 static int g_errfd = -1;
 static void classify_report(char *out, size_t cap)
@@ -369,6 +427,26 @@ static FILE *g_out;
 static void emit(const char *s) { fputs(s, g_out); fputc('\n', g_out); fflush(g_out); }
 static void outhex(const unsigned char *b, size_t l) { if (l == 0) { fputs("-", g_out); return; } for (size_t i = 0; i < l; i++) fprintf(g_out, "%02x", b[i]); }
 
+/* next connection of the same application: same client session id object, same server keys / session cache */
+static int reconnect(void)
+{
+    const wcfg_t *c = g_cfg; int rc;
+    if (c->dtls) rc = mk_dtls(c, 0);
+    else {
+        scfg_t s; memset(&s, 0, sizeof s); s.cca = 1; s.seed = 11;
+        s.ncver = 1; s.cver[0] = c->cmin; s.nsver = 1; s.sver[0] = c->smin;
+        if (c->suite) { s.nsuites = 1; s.suites[0] = (psCipher16_t) c->suite; }
+        s.cauth = c->cauth; s.scb = c->cauth ? 1 : 0; s.key = c->key; s.ticket = c->ticket;
+        s.keep_skeys = 1; s.resume = 1;
+        rc = sess_new(&s);
+    }
+    if (rc < 0) return rc;          /* e.g. the ClientHello could not be encoded: a documented failure of the API */
+    units_free(); g_app_sent = 0;
+    rc = run_prefix(-1, 0);
+    units_free();
+    return rc < 0 ? -1 : 1;
+}
+
 /* body of the child for an x case */
 static void child_x(int to, const char *flags, char **hex, int nhex)
 {
@@ -407,6 +485,12 @@ static void child_x(int to, const char *flags, char **hex, int nhex)
         n = (int) strlen(line); n += snprintf(line + n, sizeof line - n, " sni=");
         if (!p->ssl->expectedName) n += snprintf(line + n, sizeof line - n, "-");
         else for (int i = 0; i < 64 && p->ssl->expectedName[i]; i++) n += snprintf(line + n, sizeof line - n, "%02x", (unsigned char) p->ssl->expectedName[i]);
+    }
+    if (strchr(flags, 'r') && !g_verdict[0] && g_saved_sid) {
+        /* the application connects again with the session id object this connection has (perhaps) written to: whatever the
+           peer made the client store (ticket, TLS 1.3 PSK, session id) is now encoded into a ClientHello and used */
+        int rc2 = reconnect();
+        n = (int) strlen(line); snprintf(line + n, sizeof line - n, " re=%d:%d/%d", rc2, g_c.ssl ? (int) g_c.ssl->hsState : -1, g_s.ssl ? (int) g_s.ssl->hsState : -1);
     }
     if (g_argcap[0] && !g_verdict[0]) snprintf(g_verdict, sizeof g_verdict, "%s", g_argcap);
     if (g_verdict[0]) { emit(g_verdict); _exit(0); }
